@@ -3,7 +3,7 @@ From Coq Require Import List Arith NArith ZArith Lia Bool Permutation.
 From Coq Require Import ZifyBool ZifyNat ZifyN.
 From PB Require Import Base.PBytes Wire.WireModel Wire.VarintP.
 From PB Require Import Msg.MsgSchema Msg.MsgValue Msg.MsgUtf8 Msg.MsgEnc Msg.MsgDec Msg.MsgValid.
-From PB Require Import Msg.MsgWireP Msg.MsgScalarP Msg.MsgAssocP Msg.MsgSizeP.
+From PB Require Import Msg.MsgWireP Msg.MsgScalarP Msg.MsgAssocP Msg.MsgSizeP Msg.MsgExample.
 Ltac Zify.zify_post_hook ::= Z.div_mod_to_equations.
 Import ListNotations.
 Open Scope N_scope.
@@ -209,6 +209,22 @@ Section StepLemmas.
     destruct (f_card fd) eqn:Hc; try (exfalso; eapply Hnm; exact Hc);
       rewrite Hk; cbn [N.eqb Pos.eqb]; rewrite Hsub; reflexivity.
   Qed.
+
+  Lemma msg_step_group_slow fd tid body tail tagraw acc m w :
+    slow = true ->
+    msg_find_field md (f_num fd) = Some fd -> f_kind fd = KGrp tid -> msg_not_map fd ->
+    1 <= f_num fd -> f_num fd <= msg_max_num ->
+    parse_val default_dep (f_num fd) 3 (body ++ enc_tag (f_num fd) 4) = Ok (w, []) ->
+    msg_whole dsub tid body (msg_old_sub fd (fst acc)) = DOk m ->
+    msg_step slow md dsub dsub2 tagraw (f_num fd) 3 (body ++ enc_tag (f_num fd) 4 ++ tail) acc =
+    DOk ((msg_store_sub md fd m (fst acc), snd acc), tail).
+  Proof.
+    intros Hs Hf Hk Hnm Hlo Hhi Hscan Hsub. unfold msg_step. rewrite Hf. subst slow.
+    rewrite msg_max_num_eq in Hhi.
+    destruct (msgw_consume_group_enc (f_num fd) body tail w Hlo Hhi Hscan) as [Hcg Hskip].
+    destruct (f_card fd) eqn:Hc; try (exfalso; eapply Hnm; exact Hc);
+      rewrite Hk; cbn [N.eqb Pos.eqb]; rewrite Hcg, Hsub, Nnat.Nat2N.id, Hskip; reflexivity.
+  Qed.
 End StepLemmas.
 
 (* ---------- map entries ---------- *)
@@ -382,7 +398,7 @@ Lemma msg_typed_unfold slow S dep tid fs unk :
   msg_typed slow S dep tid (VMsg fs unk) = true ->
   exists d md, dep = Datatypes.S d /\ nth_error S tid = Some md /\
     msg_keys_sorted 0 fs = true /\
-    forallb (fun p => msg_typed_chunk slow (msg_typed slow S d)
+    forallb (fun p => msg_typed_chunk slow (msg_enc_body S) (msg_typed slow S d)
                         (fun t x => match d with O => false | Datatypes.S d1 => msg_typed slow S d1 t x end)
                         (match d with O => false | _ => true end) md p) fs = true /\
     msg_oneofs_ok md fs = true /\
@@ -503,7 +519,7 @@ Section Main.
     Lemma msg_elem_step fd v accf u tail g :
       msg_find_field md (f_num fd) = Some fd -> msg_not_map fd ->
       1 <= f_num fd -> f_num fd <= msg_max_num ->
-      msg_typed_elem slow (msg_typed slow S d) fd v = true ->
+      msg_typed_elem slow (msg_enc_body S) (msg_typed slow S d) fd v = true ->
       msg_szok_elem (msg_size_body S) (msg_sizes_ok S) (f_kind fd) v = true ->
       msg_dec_stmt v ->
       (card_repeated (f_card fd) = true \/ msg_fget accf (f_num fd) = []) ->
@@ -535,21 +551,32 @@ Section Main.
           pose proof (Hstmt d t Hty Hsok 0 [] [] (x00 :: eb t (VMsg fs' u'))) as H.
           rewrite app_nil_r in H. rewrite H; [reflexivity|left; auto|cbn [length]; lia].
       - (* group *)
-        apply andb_true_iff in Hty. destruct Hty as [Hslow Hty].
-        apply negb_true_iff in Hslow.
+        apply andb_true_iff in Hty. destruct Hty as [Hty Hmode].
         replace ((enc_tag (f_num fd) 3 ++ eb t (VMsg fs' u') ++ enc_tag (f_num fd) 4) ++ tail)
           with (enc_tag (f_num fd) 3 ++ (eb t (VMsg fs' u') ++ enc_tag (f_num fd) 4) ++ tail) in *
           by (rewrite <- !app_assoc; reflexivity).
         apply (msg_dm_field slow S d tid md grp g (f_num fd) 3 (eb t (VMsg fs' u') ++ enc_tag (f_num fd) 4) tail (accf, u));
           try assumption; [lia|lia|].
         intros tagraw.
-        rewrite (msg_step_group slow md _ _ fd t (eb t (VMsg fs' u') ++ enc_tag (f_num fd) 4) tail tagraw (accf, u) (fs', u'));
-          try assumption; [reflexivity|].
-        cbn [fst]. rewrite (msg_old_sub_fresh fd accf Hold).
-        rewrite <- !app_assoc.
-        apply (Hstmt d t Hty Hsz (f_num fd) (enc_tag (f_num fd) 4 ++ tail) tail).
-        + right. auto.
-        + cbn [length]. lia.
+        assert (Hcase : slow = true \/ slow = false) by (destruct slow; auto).
+        destruct Hcase as [Hslow|Hslow].
+        + (* reflection path: ConsumeGroup, then the content as a message *)
+          rewrite Hslow in Hmode. cbn [negb orb] in Hmode. unfold msg_group_scans in Hmode.
+          destruct (parse_val default_dep (f_num fd) 3 (eb t (VMsg fs' u') ++ enc_tag (f_num fd) 4))
+            as [[w [|? ?]]|e] eqn:Hscan; try discriminate.
+          rewrite <- app_assoc.
+          rewrite (msg_step_group_slow slow md _ _ fd t (eb t (VMsg fs' u')) tail tagraw (accf, u) (fs', u') w);
+            try assumption; try reflexivity.
+          cbn [fst]. rewrite (msg_old_sub_fresh fd accf Hold). unfold msg_whole.
+          pose proof (Hstmt d t Hty Hsz 0 [] [] (x00 :: eb t (VMsg fs' u'))) as H.
+          rewrite app_nil_r in H. rewrite H; [reflexivity|left; auto|cbn [length]; lia].
+        + rewrite (msg_step_group slow md _ _ fd t (eb t (VMsg fs' u') ++ enc_tag (f_num fd) 4) tail tagraw (accf, u) (fs', u'));
+            try assumption; try reflexivity.
+          cbn [fst]. rewrite (msg_old_sub_fresh fd accf Hold).
+          rewrite <- !app_assoc.
+          apply (Hstmt d t Hty Hsz (f_num fd) (enc_tag (f_num fd) 4 ++ tail) tail).
+          * right. auto.
+          * cbn [length]. lia.
     Qed.
   
 
@@ -568,7 +595,7 @@ Section Main.
     Qed.
 
     Definition msg_elem_good (fd : fdesc) (v : value) : Prop :=
-      msg_typed_elem slow (msg_typed slow S d) fd v = true /\
+      msg_typed_elem slow (msg_enc_body S) (msg_typed slow S d) fd v = true /\
       msg_szok_elem (msg_size_body S) (msg_sizes_ok S) (f_kind fd) v = true /\
       msg_dec_stmt v.
 
@@ -704,7 +731,7 @@ Section Main.
     Notation has2 := (match d with O => false | _ => true end).
 
     Lemma msg_elem_good_of fd vs :
-      forallb (msg_typed_elem slow (msg_typed slow S d) fd) vs = true ->
+      forallb (msg_typed_elem slow (msg_enc_body S) (msg_typed slow S d) fd) vs = true ->
       forallb (msg_szok_elem (msg_size_body S) (msg_sizes_ok S) (f_kind fd)) vs = true ->
       Forall msg_dec_stmt_deep vs ->
       Forall (msg_elem_good fd) vs.
@@ -715,7 +742,7 @@ Section Main.
 
     Lemma msg_field_step fd vs accf u tail g :
       msg_find_field md (f_num fd) = Some fd ->
-      msg_typed_field slow (msg_typed slow S d) tv2 has2 fd vs = true ->
+      msg_typed_field slow (msg_enc_body S) (msg_typed slow S d) tv2 has2 fd vs = true ->
       msg_szok_field (msg_size_body S) (msg_sizes_ok S) fd vs = true ->
       Forall msg_dec_stmt_deep vs ->
       ~ In (f_num fd) (msg_keys accf) ->
@@ -734,7 +761,7 @@ Section Main.
       assert (Hfget : msg_fget accf (f_num fd) = []) by (apply msg_fget_notin; exact Hnot).
       (* singular fields *)
       assert (Hsingle : forall v, vs = [v] -> msg_not_map fd -> card_repeated (f_card fd) = false ->
-                msg_typed_elem slow (msg_typed slow S d) fd v = true ->
+                msg_typed_elem slow (msg_enc_body S) (msg_typed slow S d) fd v = true ->
                 (match f_card fd, v with CImp, VS s => msg_scalar_is_zero s = false | _, _ => True end) ->
                 forallb (msg_szok_elem (msg_size_body S) (msg_sizes_ok S) (f_kind fd)) vs = true ->
                 (length (flat_map (fun e => msg_enc_elem eb (f_num fd) (f_kind fd) e) vs ++ tail) < length g)%nat ->
@@ -750,7 +777,7 @@ Section Main.
         rewrite (msg_set_field_fresh md fd v accf Hz Hfree). reflexivity. }
       (* repeated, expanded *)
       assert (Hexp : msg_not_map fd -> card_repeated (f_card fd) = true -> vs <> [] ->
-                forallb (msg_typed_elem slow (msg_typed slow S d) fd) vs = true ->
+                forallb (msg_typed_elem slow (msg_enc_body S) (msg_typed slow S d) fd) vs = true ->
                 forallb (msg_szok_elem (msg_size_body S) (msg_sizes_ok S) (f_kind fd)) vs = true ->
                 (length (flat_map (fun e => msg_enc_elem eb (f_num fd) (f_kind fd) e) vs ++ tail) < length g)%nat ->
                 exists g2, (length tail < length g2)%nat /\
@@ -783,7 +810,7 @@ Section Main.
           destruct vs; try discriminate; assumption.
       - (* packed *)
         assert (Hne : vs <> []) by (destruct vs; [discriminate|discriminate]).
-        assert (Htyv : forallb (msg_typed_elem slow (msg_typed slow S d) fd) vs = true)
+        assert (Htyv : forallb (msg_typed_elem slow (msg_enc_body S) (msg_typed slow S d) fd) vs = true)
           by (destruct vs; [discriminate|exact Hty]).
         destruct (f_kind fd) as [sk|t|t] eqn:Hk.
         + destruct vs as [|v0 vs']; [congruence|].
@@ -830,7 +857,7 @@ Section Main.
 
     (* ---------- all fields, in any order ---------- *)
     Definition msg_chunk_good (p : N * list value) : Prop :=
-      msg_typed_chunk slow (msg_typed slow S d) tv2 has2 md p = true /\
+      msg_typed_chunk slow (msg_enc_body S) (msg_typed slow S d) tv2 has2 md p = true /\
       msg_szok_chunk (msg_size_body S) (msg_sizes_ok S) md p = true /\
       Forall msg_dec_stmt_deep (snd p).
 
@@ -1017,4 +1044,17 @@ Proof.
   intros H1 H2 E. pose proof (msg_roundtrip slow S limit tid v1 H1) as R1.
   pose proof (msg_roundtrip slow S limit tid v2 H2) as R2. rewrite E in R1. rewrite R1 in R2.
   now inversion R2.
+Qed.
+
+(* FB3: the reflection path rejects what the table-driven path round-trips *)
+Theorem msg_fb3_witness :
+  exists (S : schema) (v : value),
+    msg_valid false S 2 0 v = true /\
+    msg_decode false S 2 0 (msg_encode S 0 v) = DOk v /\
+    msg_decode true S 2 0 (msg_encode S 0 v) = DErr DParse.
+Proof.
+  exists MsgExample.fb3_schema, (MsgExample.fb3_msg (N.to_nat 10001)).
+  assert (Hv : msg_valid false MsgExample.fb3_schema 2 0 (MsgExample.fb3_msg (N.to_nat 10001)) = true)
+    by (vm_compute; reflexivity).
+  split; [exact Hv|]. split; [apply msg_roundtrip; exact Hv|]. vm_compute. reflexivity.
 Qed.
